@@ -622,7 +622,13 @@ def check(ctx):
                                     if nrf.id in P.targets(c1):
                                         idx = [i for i in range(1, nrf.arg_count + 1) if nrf.lname(i) == pname]
                                         k = op_const(c1.args[idx[0] - 1]) if idx and idx[0] - 1 < len(c1.args) else None
-                                        if k is None or str(k.get("bool")).lower() != want:
+                                        given = str(k.get("bool")).lower() if k is not None and "bool" in k else None
+                                        if given is None and idx and idx[0] - 1 < len(c1.args):
+                                            # a field-less enum instead of a bool (`OutputCheck::Required`): the variant the wrapper passes
+                                            ov = e.origin(c1.args[idx[0] - 1])
+                                            if ov[0] == "aggr" and ov[1].get("variant") and not ov[1].get("ops"):
+                                                given = ov[1]["variant"]
+                                        if given is None or given != want:
                                             sat = False
                                 if t == nrf.id:
                                     sat = False  # called directly: the parameter is not a constant of an entry wrapper
